@@ -136,21 +136,34 @@ def atoms(e: ast.expr) -> List[ast.expr]:
     return [e]
 
 
+class AtomList(list):
+    """Atoms together with the bare names of the functions they were collected from (see exprdiff.scope)."""
+
+    scope: Optional[Set[str]] = None
+
+
+def _scoped(cands):
+    from . import exprdiff
+
+    return exprdiff.scope(cands.scope if isinstance(cands, AtomList) and exprdiff.SCOPE is None else exprdiff.SCOPE)
+
+
 def match_atoms(cands: Iterable[ast.expr], wants: List[str]):
     """Match a SET of wanted atoms against candidate atoms -> {want: (verdict, why)}.  A candidate that is itself one
     of the wanted atoms is never evidence of a substitution of another."""
     from .exprdiff import canon, compare, parse
 
-    cands = list(cands)
-    wanted_texts = {u(canon(parse(w))) for w in wants}
-    spare = [c for c in cands if u(canon(c)) not in wanted_texts]
-    out = {}
-    for w in wants:
-        ok, why = match_any(cands, [w])
-        if ok is False:
-            ok, why = match_any(spare, [w])
-        out[w] = (ok, why)
-    return out
+    with _scoped(cands):
+        cands = list(cands)
+        wanted_texts = {u(canon(parse(w))) for w in wants}
+        spare = [c for c in cands if u(canon(c)) not in wanted_texts]
+        out = {}
+        for w in wants:
+            ok, why = match_any(cands, [w])
+            if ok is False:
+                ok, why = match_any(spare, [w])
+            out[w] = (ok, why)
+        return out
 
 
 def match_any(candidates: Iterable[ast.expr], accepted: Iterable[str]):
@@ -160,12 +173,13 @@ def match_any(candidates: Iterable[ast.expr], accepted: Iterable[str]):
 
     worst = None
     why = ""
-    for c in candidates:
-        ok, w = compare(c, list(accepted))
-        if ok is True:
-            return True, ""
-        if ok is False:
-            worst, why = False, w
+    with _scoped(candidates):
+        for c in candidates:
+            ok, w = compare(c, list(accepted))
+            if ok is True:
+                return True, ""
+            if ok is False:
+                worst, why = False, w
     return worst, why
 
 
@@ -173,7 +187,10 @@ def collect_test_atoms(repo, ci, member_name: str, depth: int = 2) -> List[ast.e
     """Atoms of every test (if / while / conditional expression / comprehension filter) of `member` and - followed
     through `self.<helper>(...)` / `cls.<helper>(...)` calls and helper properties - of its private helpers; boolean
     RETURN values of those helpers count as tests too.  Locals are substituted (see may_values)."""
-    out: List[ast.expr] = []
+    from .exprdiff import ScopeSet
+
+    out: List[ast.expr] = AtomList()
+    fns: List[ast.AST] = []
     seen: Set[str] = set()
 
     def visit(name: str, d: int, is_helper: bool):
@@ -185,6 +202,7 @@ def collect_test_atoms(repo, ci, member_name: str, depth: int = 2) -> List[ast.e
             return
         res = resolver(m.node)
         tests: List[ast.expr] = []
+        fns.append(m.node)
         for n in ast.walk(m.node):
             if isinstance(n, (ast.If, ast.While, ast.IfExp)):
                 tests.append(n.test)
@@ -204,18 +222,20 @@ def collect_test_atoms(repo, ci, member_name: str, depth: int = 2) -> List[ast.e
                     visit(n.attr, d - 1, True)
 
     visit(member_name, depth, False)
+    out.scope = ScopeSet.of(fns)
     return out
 
 
 def match_atom(cands: Iterable[ast.expr], want: str):
     """Tri-state match of one wanted test atom, in either polarity (a predicate helper states the negation)."""
-    cands = list(cands)
-    ok, why = match_any(cands, [want, f"not ({want})"])
-    if ok is not None:
-        return ok, why
-    # strip a leading `not` of candidates and retry against the positive form
-    stripped = [c.operand for c in cands if isinstance(c, ast.UnaryOp) and isinstance(c.op, ast.Not)]
-    return match_any(stripped, [want]) if stripped else (None, "")
+    with _scoped(cands):
+        cands = list(cands)
+        ok, why = match_any(cands, [want, f"not ({want})"])
+        if ok is not None:
+            return ok, why
+        # strip a leading `not` of candidates and retry against the positive form
+        stripped = [c.operand for c in cands if isinstance(c, ast.UnaryOp) and isinstance(c.op, ast.Not)]
+        return match_any(stripped, [want]) if stripped else (None, "")
 
 
 def _exits(body: List[ast.stmt]) -> bool:
@@ -336,6 +356,13 @@ def reachable_functions(repo, ci, member_name: str, depth: int = 2) -> List[ast.
 
     visit(member_name, depth)
     return out
+
+
+def scope_names(repo, ci, member_name: str, depth: int = 3):
+    """Every bare name (locals, parameters, globals read) of the member and of the private helpers it reaches."""
+    from .exprdiff import ScopeSet
+
+    return ScopeSet.of(reachable_functions(repo, ci, member_name, depth))
 
 
 def check_side_paths(ctx, rule: str, construct: str, e: ast.expr, expected: List[tuple], detail: str = ""):
